@@ -97,10 +97,23 @@ func (vsharedNode) Execute(ctx *pongo2.ExecutionContext, w pongo2.TemplateWriter
 	return nil
 }
 
+var sharedFilterError = &pongo2.Error{Sender: "filter:vsharederr", OrigError: errors.New("text too short")}
+
+func resetSharedError() {
+	*sharedFilterError = pongo2.Error{Sender: "filter:vsharederr", OrigError: sharedFilterError.OrigError}
+}
+
 var regOnce sync.Once
 
 func register() {
 	regOnce.Do(func() {
+		// a filter of the application that hands out ONE error object for all its failures
+		pongo2.RegisterFilter("vsharederr", func(in, p *pongo2.Value) (*pongo2.Value, *pongo2.Error) {
+			if in.Len() < 2 {
+				return nil, sharedFilterError
+			}
+			return in, nil
+		})
 		pongo2.RegisterTag("vshared", func(doc *pongo2.Parser, start *pongo2.Token, args *pongo2.Parser) (pongo2.INodeTag, *pongo2.Error) {
 			return vsharedNode{}, nil
 		})
@@ -206,8 +219,10 @@ func (c *Case) Exec(t *eng.T) {
 			_ = out
 			return
 		}
+		resetSharedError() // every reference run starts with the application's error object as the application made it
 		fresh[e] = run1(tpl, e)
 	}
+	resetSharedError()
 	t.Nontrivial()
 	tpl, _ := c.compile()
 	before := deep.Take(roots(tpl))
@@ -325,6 +340,7 @@ func programs() []prog {
 		{name: "filter-error-date", src: "{% if flag %}{{ n|date:\"2006\" }}{% else %}\n {{ s|date:\"2006\" }}{% endif %}"},
 		{name: "filter-error-slice", src: "{% if flag %}{{ l|slice:\"x\" }}{% else %}\n\n\n{{ l|slice:\"1:2:3\" }}{% endif %}"},
 		{name: "filter-error-pluralize-args", src: "{% if flag %}{{ n|pluralize:\"a,b,c\" }}{% else %}\n\n {{ n|pluralize:\"a,b,c\" }}{% endif %}"},
+		{name: "filter-error-shared-object", src: "{% if flag %}{{ s|vsharederr }}{% else %}\n\n   {{ s|vsharederr }}x{{ \"y\"|vsharederr }}{% endif %}"},
 		{name: "macro-deep", src: "{% macro r(k) %}{% if k > 0 %}{{ r(k - 1) }}{% endif %}{% endmacro %}{{ r(600) }}{{ n }}"},
 		{name: "import-deep", src: "{% import \"deeplib\" r %}{{ r(600) }}{{ n }}", files: map[string]string{"/deeplib": "{% macro r(k) export %}{% if k > 0 %}{{ r(k - 1) }}{% endif %}{% endmacro %}"}},
 		{name: "slice-negative", src: `{{ l|slice:"-2:"|join:"," }}|{{ l|slice:":-1"|join:"," }}|{{ l|slice:"2:"|join:"," }}|{{ s|slice:"-1:" }}|{{ s|slice:"1:5" }}|{{ l|slice:"-5:-1"|join:"," }}`},
